@@ -44,11 +44,21 @@ theorem binaryResult_exact (op : BinaryOperator) (l r : Int) (hl : InRange l) (h
   case RemainderAssign => exact rem_case l r hl hr
 
 
+/-- the i64 boundary cases named by the property: `MIN / -1` and `MIN % -1` are errors, not wrapped values -/
+example : (binaryResult .Divide (-9223372036854775808) (-1)).value? = none ∧
+    (binaryResult .Remainder (-9223372036854775808) (-1)).value? = none ∧
+    (binaryResult .ShiftLeft 1 63).value? = none ∧ (binaryResult .ShiftLeft 1 62).value? = some 4611686018427387904 ∧
+    (binaryResult .ShiftRight (-7) 1).value? = some (-4) ∧ (binaryResult .ShiftRight 1 64).value? = none ∧
+    (binaryResult .Multiply 4294967296 2147483648).value? = none := by decide
+
 /-- ★ the left-shift filter of the code (`result >= 0 && result >> rhs == lhs` on the *wrapped* shift)
     passes exactly when the exact product fits. -/
 theorem shl_exact (l : Int) (n : Nat) (hl : 0 ≤ l) :
     (decide (wrap64 (l * 2 ^ n) ≥ 0) && (wrap64 (l * 2 ^ n) >>> n == l)) = true ↔ l * 2 ^ n < 2 ^ 63 := by
   rw [shl_filter l n hl]; omega
+
+/-- the hypothesis of `shl_exact` is met by the boundary operands: `1 << 62` fits, `1 << 63` does not -/
+example : (0 : Int) ≤ 1 ∧ (1 : Int) * 2 ^ 62 < 2 ^ 63 ∧ ¬ ((1 : Int) * 2 ^ 63 < 2 ^ 63) := by decide
 
 /-! ## operator tables (over the GENERATED definitions) -/
 
@@ -127,6 +137,8 @@ theorem longest_match (s lex : List Char) (o : Operator) (h : findOp s = some (l
       exact hlen (Nat.le_refl _)
 
 
+example : findOp "<<=1".toList = some (['<', '<', '='], .LessLessEqual) := by decide
+
 /-! ## the parser output and totality -/
 
 /-- ★ every vector `ast::parse` returns, for any token sequence, is a well-formed reverse-Polish encoding:
@@ -167,6 +179,10 @@ theorem evalStr_never_panics (src : List Char) (env : Env) :
     | panic => exact hr.elim
     | fuel => exact hr.elim
 
+
+example : (parse "1+2*(a=3)".toList).toOption = some
+    [.term (.value 1), .term (.value 2), .term (.variable ['a']), .term (.value 3), .binary .Assign 1,
+     .binary .Multiply 3, .binary .Add 5] := by decide
 
 /-! ## short circuit -/
 
@@ -209,6 +225,12 @@ theorem shortcircuit_no_effect :
   ⟨shortcircuit_or, shortcircuit_and, shortcircuit_cond⟩
 
 
+/-- `1 || (x = 1/0)`: neither the division nor the assignment happens -/
+example : evalStr "1 || (x = 1/0)".toList [] = .value 1 [] ∧
+    evalStr "0 && x++".toList [] = .value 0 [] ∧
+    evalStr "0 ? x++ : y--".toList [] = .value 0 [(['y'], ['-', '1'])] := by
+  refine ⟨?_, ?_, ?_⟩ <;> decide +kernel
+
 /-! ## prefix and postfix operators -/
 
 /-- ★ `+ - ! ~` on an i64 value: exact, and `-` is an error exactly at `-2^63` -/
@@ -225,9 +247,12 @@ theorem prefix_exact (t : Term) (env : Env) (v : Int) (hv : intoValue t env = .o
     by_cases h : Spec.InRange (-v) <;> simp [h, Res.ofOption]
   · unfold InRange at hr; unfold Spec.InRange; omega
   · simp only [applyPrefix, hv, Res.bind, Spec.truth]
-    by_cases h : v = 0 <;> simp [h]
   · simp [applyPrefix, hv, Res.bind, bitNot_exact v hr]
   · unfold InRange at hr; unfold Spec.InRange; omega
+
+/-- the hypotheses of `prefix_exact` at the boundary: `-(-2^63)` is the error case -/
+example : intoValue (.value (-9223372036854775808)) [] = .ok (-9223372036854775808) ∧
+    InRange (-9223372036854775808) ∧ ¬ Spec.InRange (-(-9223372036854775808)) := by decide
 
 /-- ★ `++x --x x++ x--` on a variable whose value is `v`: the variable becomes `v ± 1` (decimal text), the
     result is the new (prefix) or old (postfix) value; at `2^63-1` / `-2^63` it is an error and nothing is
@@ -247,9 +272,9 @@ theorem incdec_exact (x : Name) (env : Env) (v : Int) (hv : expandVariable x env
   · simp only [applyPrefix, requireVariable, hv, Res.bind, checked_eq_represent, Spec.represent]
     by_cases h : Spec.InRange (v - 1) <;> simp [h, Res.ofOption, assign]
   · simp only [applyPostfix, requireVariable, hv, Res.bind, checked_eq_represent, Spec.represent]
-    by_cases h : Spec.InRange (v + 1) <;> simp [h, Res.ofOption, assign, Res.bind]
+    by_cases h : Spec.InRange (v + 1) <;> simp [h, Res.ofOption, assign]
   · simp only [applyPostfix, requireVariable, hv, Res.bind, checked_eq_represent, Spec.represent]
-    by_cases h : Spec.InRange (v - 1) <;> simp [h, Res.ofOption, assign, Res.bind]
+    by_cases h : Spec.InRange (v - 1) <;> simp [h, Res.ofOption, assign]
 
 /-- ★ increment and decrement of something that is not a variable is an error -/
 theorem incdec_needs_variable (c : Int) (env : Env) :
@@ -258,6 +283,10 @@ theorem incdec_needs_variable (c : Int) (env : Env) :
     (∀ op, applyPostfix (.value c) op env = .error .assignmentToValue) := by
   refine ⟨?_, ?_, ?_⟩ <;> simp [applyPrefix, applyPostfix, requireVariable, Res.bind]
 
+
+example : expandVariable ['m'] [(['m'], "9223372036854775807".toList)] = .ok 9223372036854775807 ∧
+    applyPostfix (.variable ['m']) .Increment [(['m'], "9223372036854775807".toList)]
+    = .error .overflow := by decide +kernel
 
 /-! ## a variable whose value is an integer constant denotes that constant -/
 
@@ -270,5 +299,12 @@ theorem var_constant_agrees (x : Name) (c : List Char) (v : Int) (env : Env)
   unfold expandVariable
   simp only [hx, parseInteger_of_constant c v hterm hc, Res.ofOption]
 
+
+/-- the two witnesses that failed before the fix: `x=010` is 8, `x=0x10` is 16 -/
+example : expandVariable ['x'] [(['x'], "010".toList)] = .ok 8 ∧
+    expandVariable ['x'] [(['x'], "0x10".toList)] = .ok 16 ∧
+    parseConstant "010".toList = some 8 ∧ parseConstant "0x10".toList = some 16 ∧
+    (∀ ch ∈ "0x10".toList, isTermChar ch = true) ∧ Env.get [(['x'], "0x10".toList)] ['x'] = some "0x10".toList := by
+  decide +kernel
 
 end YashModel.Arith
